@@ -6,7 +6,7 @@
      R<r>=<-|s<o>|y<r>>    intended new ref value
      N<n>=<content>        intended new plain-file content
      g<o>                  garbage object
-     w:<path>=<content>  mv:<path>:<path>  rm:<path>  mk:<path>  rd:<path>     calls
+     w:<path>=<content>  mv:<path>:<path>  rm:<path>  mk:<path>  rd:<path>  sk:<o>:<path>     calls
    paths: l<o> p<p> i<p> r<r> P S n<n> t<n> x<n>;  contents: - o<o> k<k> i<k>:<o,…> s<o> y<r> m<r>:<o>,… h<o,…> b<k> j d
    Answer (one line): `check=<0|1> first=<i|-> pre=<0|1>` followed, for every prefix j = 0…len, by
    ` | rec=<0|1> fs=<path>=<content>;… vis=<o,…> refs=<r>:<v>,…` (the model's file system after j calls, the
@@ -94,6 +94,10 @@ def tokenC (t : String) (a : Acc) : Option Acc :=
        | [x, y] => do some { a with prog := .rename (← pathC x) (← pathC y) :: a.prog }
        | _ => none)
   | 'r' :: 'm' :: ':' :: r => do some { a with prog := .unlink (← pathC r) :: a.prog }
+  | 's' :: 'k' :: ':' :: r =>
+      (match splitC ':' r with
+       | [o, y] => do some { a with prog := .skip (← natC o) (← pathC y) :: a.prog }
+       | _ => none)
   | 'm' :: 'k' :: ':' :: r => do some { a with prog := .mkdir (← pathC r) :: a.prog }
   | 'r' :: 'd' :: ':' :: r => do some { a with prog := .rmdir (← pathC r) :: a.prog }
   | 'e' :: r =>
